@@ -265,6 +265,7 @@ def wl_snippet(ctx, idx, rng):
         if n <= np.iinfo(dt_).max:
             forms_n.append(dt_(n))      # narrow integer types: t + n may exceed the type's own range
     n = forms_n[int(rng.integers(len(forms_n)))]
+    targ_before = (np.array(targ.value, copy=True), targ.unit) if isinstance(targ, u.Quantity) else None
     small_cfg = use_dask and N >= 1000 and rng.random() < 0.5
     try:
         if small_cfg:
@@ -276,6 +277,17 @@ def wl_snippet(ctx, idx, rng):
             out = pb.snippet(sig, targ, n)
     except Exception:
         out = None      # judged by the monitor
+    if targ_before is not None:
+        # the caller's duration object is reused for the next signal: it must still say what it said, and the request must still work
+        ctx.count("oracle[duration_argument_unchanged]")
+        if targ.unit != targ_before[1] or not np.array_equal(np.asarray(targ.value), targ_before[0]):
+            ctx.violation("snippet", f"snippet rewrote the duration it was given: {targ_before[0]} {targ_before[1]} -> {targ!r}", None,
+                          {"what": "argument_modified", "form": "quantity"})
+        elif out is not None and rng.random() < 0.5:
+            try:
+                pb.snippet(sig, targ, n)
+            except Exception:
+                pass
     if (not use_dask) and out is not None and np.dtype(dtype).kind in "fc" and rng.random() < 0.3:
         # history: the signal's samples are updated in place (calibration), then the same snippet is requested again
         try:
